@@ -100,13 +100,17 @@ def direct(seed, tier, model, stats):
             fc = SR * r.choice([1e-4, 1e-2, 0.12, 0.5, 3])
             dc = r.choice([0.5, 1, 2])
             inverse = r.random() < 0.5
+            positional = r.random() < 0.4         # the DC gain as the sixth positional argument / by keyword
             if inverse:
-                fn = lambda x: ripasso.applyInverseRCFilter(x, SR, kind, fc, order, DCgain=dc)
+                fn = (lambda x: ripasso.applyInverseRCFilter(x, SR, kind, fc, order, dc)) if positional else \
+                     (lambda x: ripasso.applyInverseRCFilter(x, SR, kind, fc, order, DCgain=dc))
                 H = H_doc(kind, SR, fc, -order, dc, N)
             else:
-                fn = lambda x: ripasso.applyRCFilter(x, SR, kind, fc, order, DCgain=dc)
+                fn = (lambda x: ripasso.applyRCFilter(x, SR, kind, fc, order, dc)) if positional else \
+                     (lambda x: ripasso.applyRCFilter(x, SR, kind, fc, order, DCgain=dc))
                 H = H_doc(kind, SR, fc, order, dc, N)
-            label = f"{'applyInverseRCFilter' if inverse else 'applyRCFilter'}(SR={SR}, kind={kind}, f_cut={fc}, order={order}, DCgain={dc})"
+            label = (f"{'applyInverseRCFilter' if inverse else 'applyRCFilter'}(SR={SR}, kind={kind}, f_cut={fc}, order={order}, "
+                     f"{'' if positional else 'DCgain='}{dc})")
             tested["rc_impulse_sets"] += 1
             d = None
             for j in range(N):
@@ -167,8 +171,11 @@ def direct(seed, tier, model, stats):
         fgrid = np.abs(np.fft.fftfreq(N, 1 / SR))
         T = np.interp(fgrid, fr, amp)
         H = (1 / T) if invert else T
-        fn = lambda x: ripasso.applyCustomTransferFunction(x, SR, fr, amp, invert=invert)
-        label = f"applyCustomTransferFunction(N={N}, SR={SR}, {len(fr)} knots, invert={invert})"
+        if N % 3 == 0:
+            fn = lambda x: ripasso.applyCustomTransferFunction(x, SR, fr, amp, invert)        # the flag as fifth positional argument
+        else:
+            fn = lambda x: ripasso.applyCustomTransferFunction(x, SR, fr, amp, invert=invert)
+        label = f"applyCustomTransferFunction(N={N}, SR={SR}, {len(fr)} knots, {'' if N % 3 == 0 else 'invert='}{invert})"
         tested["custom"] += 1
         d = None
         try:
@@ -203,8 +210,10 @@ def direct(seed, tier, model, stats):
             fails.append({"what": d, "call": label, "tf_freqs": fr.tolist(), "tf_amp": amp.tolist()})
     # rejected axes
     x = np.ones(8)
-    for fr, want in (([0, 1, 1, 5], ValueError), ([0, 2, 1, 5], ValueError), ([0, 1, 2, 3], ripasso.MissingFrequenciesError),
-                     ([0, 1, 2, 4.999], ripasso.MissingFrequenciesError)):
+    # (each unusable axis is tried twice: a refused call must not make the next one pass)
+    for fr, want in (([0, 1, 1, 5], ValueError), ([0, 1, 1, 5], ValueError), ([0, 2, 1, 5], ValueError), ([0, 2, 1, 5], ValueError),
+                     ([0, 1, 2, 3], ripasso.MissingFrequenciesError), ([0, 1, 2, 3], ripasso.MissingFrequenciesError),
+                     ([0, 1, 2, 4.999], ripasso.MissingFrequenciesError), ([0, 1, 2, 4.999], ripasso.MissingFrequenciesError)):
         tested["rejections"] += 1
         try:
             ripasso.applyCustomTransferFunction(x, 10, np.array(fr, float), np.ones(len(fr)))
@@ -216,7 +225,7 @@ def direct(seed, tier, model, stats):
             fails.append({"what": f"applyCustomTransferFunction raised {type(e).__name__} for the axis {fr}, {want.__name__} expected",
                           "call": "applyCustomTransferFunction"})
     # Nyquist is SR/2 also when that is not a whole number
-    for SRx, fr in ((5, [0, 1, 2.4975]), (5, [0, 1, 2]), (1, [0, 0.25, 0.4999]), (2.5, [0, 1, 1.2]), (7, [0, 3, 3.4])):
+    for SRx, fr in ((5, [0, 1, 2.4975]), (5, [0, 1, 2]), (1, [0, 0.25, 0.4999]), (2.5, [0, 1, 1.2]), (7, [0, 3, 3.4]), (5, [0, 1, 2]), (7, [0, 3, 3.4])):
         tested["rejections"] += 1
         try:
             ripasso.applyCustomTransferFunction(np.ones(6), SRx, np.array(fr, float), np.ones(len(fr)))
